@@ -66,7 +66,8 @@ def run(ctx):
             got = ["ok", _unwire(ans[1])] if ans[0] == "ok" else ["err"]
             if got != want:
                 res.violation("the reader model and the real parser read a text differently", dict(case, text=text[:1500]),
-                              impl=want if want[0] == "err" else want[1][:3], model=got if got[0] == "err" else got[1][:3], clause="model tie: reader")
+                              impl=want if want[0] == "err" else want[1][:3], model=got if got[0] == "err" else got[1][:3], clause="model tie: reader",
+                              tie_only=True)
 
         batch.add(["dec_read", [], text], on)
 
@@ -276,7 +277,7 @@ def run(ctx):
         res.evaluations += total
         for t, e, g in first[:10]:
             res.violation("the reader model and the real parser read a text differently", {"kind": "reader", "label": "exhaustive", "text": t},
-                          impl=e if e[0] == "err" else e[1][:3], model=g if g[0] == "err" else g[1][:3], clause="model tie: reader")
+                          impl=e if e[0] == "err" else e[1][:3], model=g if g[0] == "err" else g[1][:3], clause="model tie: reader", tie_only=True)
     batch.run()
     shutil.rmtree(tmp, ignore_errors=True)
     return res.done()
